@@ -319,6 +319,25 @@ pub fn run(args: &[String]) -> Value {
                         };
                         rec.rec_cc(["aln", "amn", "exn"][r.gen_range(0..3)], &bs, n)
                     }
+                    "ccl" => {
+                        // long lists: the recursion of cmp_count is exponential in the list length, 8 is still cheap
+                        if r.gen_bool(0.6) {
+                            let len = r.gen_range(4..=8);
+                            let mut bs: Vec<Node> = (0..len).map(|_| rec.random_node(&mut r)).collect();
+                            if r.gen_bool(0.4) {
+                                let i = r.gen_range(0..len);
+                                let j = r.gen_range(0..len);
+                                bs[i] = Rc::clone(&bs[j]);
+                            }
+                            let n: i64 = r.gen_range(-1..=len as i64 + 1);
+                            rec.rec_cc(["aln", "amn", "exn"][r.gen_range(0..3)], &bs, n)
+                        } else {
+                            let (lp, lq) = (r.gen_range(2..=5), r.gen_range(2..=5));
+                            let p: Vec<Node> = (0..lp).map(|_| rec.random_node(&mut r)).collect();
+                            let q: Vec<Node> = (0..lq).map(|_| rec.random_node(&mut r)).collect();
+                            rec.rec_cl(["leq", "lt", "geq", "gt", "eq"][r.gen_range(0..5)], &p, &q)
+                        }
+                    }
                     "cl" => {
                         let (lp, lq) = (r.gen_range(0..=4), r.gen_range(0..=4));
                         let p: Vec<Node> = (0..lp).map(|_| rec.random_node(&mut r)).collect();
